@@ -1,6 +1,6 @@
 (* C11 — neighbour queries agree with brute-force search under the tree's metric.
    Statements only; each closed by `exact` of a lemma from Proofs/, followed by Print Assumptions. *)
-From Coq Require Import Reals Sorted.
+From Coq Require Import Reals Sorted Permutation.
 From Verif Require Import Base C11 C11_keys C11_proofs.
 
 (* the model of a k-nearest query (sklearn tree := brute force) returns min(k,n) distinct valid
@@ -8,6 +8,23 @@ From Verif Require Import Base C11 C11_keys C11_proofs.
 Theorem C11_knn : forall keys k, c11_knn_ok keys k (c11_knn keys k).
 Proof. exact c11_knn_spec. Qed.
 Print Assumptions C11_knn.
+
+(* the distances answered are the first k entries of the sorted list of all distances ... *)
+Theorem C11_knn_sorted_prefix : forall keys k,
+  exists sorted, Sorted Z.le sorted /\ Permutation sorted keys /\ map fst (c11_knn keys k) = firstn k sorted.
+Proof. exact c11_knn_sorted_prefix. Qed.
+Print Assumptions C11_knn_sorted_prefix.
+
+(* ... hence invariant under renumbering the elements (the answer is determined up to exact ties) *)
+Theorem C11_knn_permutation_invariant : forall keys1 keys2 k, Permutation keys1 keys2 ->
+  map fst (c11_knn keys1 k) = map fst (c11_knn keys2 k).
+Proof. exact c11_knn_permutation_invariant. Qed.
+Print Assumptions C11_knn_permutation_invariant.
+
+(* tie rule of the model: (distance, index) lexicographic - among equal distances the lower index first *)
+Theorem C11_knn_tie_rule : forall keys k, StronglySorted c11_le2 (c11_knn keys k).
+Proof. exact c11_knn_tie_rule. Qed.
+Print Assumptions C11_knn_tie_rule.
 
 (* a radius query returns exactly the elements whose key is within the threshold, each once *)
 Theorem C11_radius : forall keys rk d j,
